@@ -5,9 +5,18 @@
 //!
 //! Ops (same as `lean/BarterModel/Driver/C07.lean`):
 //!   `init T n [m]` (m configured assets, default 0)
-//!   | `open|cancel ex ins strat cid body delay reply fills eex eins estrat ecid ebody`
+//!   | `open|cancel ex ins strat cid body delay reply fills eex eins estrat ecid ebody [oid tex]`
+//!     body  = code of the request's state: opens -> static fields (`body_fields`: side / price / quantity from
+//!             `body % 6`, Limit|Market from `(body / 6) % 2`, time in force from `(body / 12) % 5`), cancels ->
+//!             `RequestCancel { id }` (0 = None, k+1 = Some("o<k>"))
 //!     reply = ok | rej | inv<i> | conn_timeout | conn_offline | conn_socket | ainv<a> | bal<a> | rate | acx | aff
 //!     (the scripted client returns the real `UnindexedOrderError` values)
+//!     fills = filled quantity of an accepted open relative to the ECHOED order's quantity: 0 nothing | 1 all |
+//!             2 half (partial fill) | 3 quantity + 1
+//!     oid tex (default 0 0) = payload of the client's answer: order id `o<oid>`, exchange time +`tex` ms, error
+//!             text `m<oid>`, `ExchangeOffline(exchange oid % 4)`
+//!   The scripted client RECORDS every request the manager hands it (`fwd ...` observation lines) and answers
+//!   from the script.
 //!   | `adv dt` (sleep: timers fire one by one) | `jump dt` (`tokio::time::advance`: late poll) | `shutdown`
 //! One model tick = 10 ms of virtual time.
 use barter::execution::{AccountStreamEvent, manager::ExecutionManager, request::ExecutionRequest};
@@ -81,7 +90,12 @@ enum Reply {
 struct Script {
     delay: Option<u64>,
     reply: Reply,
-    fills: bool,
+    /// 0 nothing | 1 the echoed order's quantity | 2 half of it | 3 quantity + 1
+    fills: u8,
+    /// payload of the answer: order id `o<oid>` / error text `m<oid>` / `ExchangeOffline(oid % 4)`
+    oid: u64,
+    /// `time_exchange` of the answer, ms after `time0`
+    tex: i64,
     eex: usize,
     eins: usize,
     estrat: usize,
@@ -92,6 +106,8 @@ struct Script {
 #[derive(Debug, Clone, Default)]
 struct ScriptedClient {
     scripts: Arc<Mutex<VecDeque<Script>>>,
+    /// one `fwd ...` line per request the manager handed to the client, in call order
+    seen: Arc<Mutex<Vec<String>>>,
 }
 
 fn exchange_id(e: usize) -> ExchangeId {
@@ -112,27 +128,68 @@ fn asset_name(a: usize) -> AssetNameExchange {
     AssetNameExchange::new(format!("ast{a}"))
 }
 
-fn body_fields(body: u64) -> (Side, Decimal, Decimal) {
+/// static fields of the order with code `body` (codes 0..5: the Limit / GTC orders of the first corpus)
+fn body_fields(body: u64) -> (Side, Decimal, Decimal, OrderKind, TimeInForce) {
+    assert!(body < 60, "bad body code {body}");
+    let base = body % 6;
     (
-        if body % 2 == 0 { Side::Buy } else { Side::Sell },
-        Decimal::from(body),
-        Decimal::from(body + 1),
+        if base % 2 == 0 { Side::Buy } else { Side::Sell },
+        Decimal::from(base),
+        Decimal::from(base + 1),
+        if (body / 6) % 2 == 0 { OrderKind::Limit } else { OrderKind::Market },
+        match (body / 12) % 5 {
+            0 => TimeInForce::GoodUntilCancelled { post_only: false },
+            1 => TimeInForce::GoodUntilCancelled { post_only: true },
+            2 => TimeInForce::GoodUntilEndOfDay,
+            3 => TimeInForce::FillOrKill,
+            _ => TimeInForce::ImmediateOrCancel,
+        },
     )
 }
 
-/// inverse of `body_fields`; `None` if the static fields are not those of one body
-fn fields_body(side: Side, price: Decimal, quantity: Decimal, kind: OrderKind, tif: TimeInForce) -> String {
-    let b = price.to_string().parse::<u64>().ok();
-    match b {
-        Some(b)
-            if body_fields(b) == (side, price, quantity)
-                && kind == OrderKind::Limit
-                && tif == (TimeInForce::GoodUntilCancelled { post_only: false }) =>
-        {
-            b.to_string()
+/// the static fields as they are, one token: `B|S:price:quantity:L|M:tif`
+fn fields_tok(side: Side, price: Decimal, quantity: Decimal, kind: OrderKind, tif: TimeInForce) -> String {
+    format!(
+        "{}:{}:{}:{}:{}",
+        match side {
+            Side::Buy => "B",
+            Side::Sell => "S",
+        },
+        fmt_dec(price),
+        fmt_dec(quantity),
+        match kind {
+            OrderKind::Limit => "L",
+            OrderKind::Market => "M",
+        },
+        match tif {
+            TimeInForce::GoodUntilCancelled { post_only: false } => "G0",
+            TimeInForce::GoodUntilCancelled { post_only: true } => "G1",
+            TimeInForce::GoodUntilEndOfDay => "D",
+            TimeInForce::FillOrKill => "F",
+            TimeInForce::ImmediateOrCancel => "I",
         }
-        _ => "?".into(),
-    }
+    )
+}
+
+/// `RequestCancel { id }` of the cancel with code `body`
+fn cancel_id(body: u64) -> Option<OrderId> {
+    (body > 0).then(|| OrderId::new(format!("o{}", body - 1)))
+}
+
+/// inverse of `exchange_id`, for printing an `ExchangeId`
+fn exchange_no(id: ExchangeId) -> String {
+    (0..4usize).find(|e| exchange_id(*e) == id).map(|e| format!("x{e}")).unwrap_or_else(|| format!("?{id}"))
+}
+
+/// `fwd <kind> x<exchange id> <instrument NAME> <strat> <cid> <state>`: the request as the client received it
+fn fwd_line(kind: &str, key: &OrderKey<ExchangeId, &InstrumentNameExchange>, state: String) -> String {
+    format!(
+        "fwd {kind} {} {} {} {} {state}",
+        exchange_no(key.exchange),
+        key.instrument.name(),
+        strip('s', key.strategy.0.as_str()),
+        strip('c', key.cid.0.as_str()),
+    )
 }
 
 fn time0() -> DateTime<Utc> {
@@ -152,21 +209,34 @@ impl Script {
     fn error(&self) -> UnindexedOrderError {
         use UnindexedApiError as A;
         match self.reply {
-            Reply::InvalidIns(i) => UnindexedOrderError::Rejected(A::InstrumentInvalid(ins_name(i), "invalid".into())),
+            Reply::InvalidIns(i) => UnindexedOrderError::Rejected(A::InstrumentInvalid(ins_name(i), self.text())),
             Reply::ConnTimeout => UnindexedOrderError::Connectivity(ConnectivityError::Timeout),
-            Reply::ConnOffline => {
-                UnindexedOrderError::Connectivity(ConnectivityError::ExchangeOffline(ExchangeId::Mock))
-            }
-            Reply::ConnSocket => UnindexedOrderError::Connectivity(ConnectivityError::Socket("reset".into())),
-            Reply::AssetInvalid(a) => UnindexedOrderError::Rejected(A::AssetInvalid(asset_name(a), "invalid".into())),
+            Reply::ConnOffline => UnindexedOrderError::Connectivity(ConnectivityError::ExchangeOffline(exchange_id(
+                (self.oid % 4) as usize,
+            ))),
+            Reply::ConnSocket => UnindexedOrderError::Connectivity(ConnectivityError::Socket(self.text())),
+            Reply::AssetInvalid(a) => UnindexedOrderError::Rejected(A::AssetInvalid(asset_name(a), self.text())),
             Reply::BalanceInsufficient(a) => {
-                UnindexedOrderError::Rejected(A::BalanceInsufficient(asset_name(a), "Available 0, Required 1".into()))
+                UnindexedOrderError::Rejected(A::BalanceInsufficient(asset_name(a), self.text()))
             }
             Reply::RateLimit => UnindexedOrderError::Rejected(A::RateLimit),
             Reply::AlreadyCancelled => UnindexedOrderError::Rejected(A::OrderAlreadyCancelled),
             Reply::AlreadyFullyFilled => UnindexedOrderError::Rejected(A::OrderAlreadyFullyFilled),
-            Reply::Rejected | Reply::Ok => UnindexedOrderError::Rejected(A::OrderRejected("no".into())),
+            Reply::Rejected | Reply::Ok => UnindexedOrderError::Rejected(A::OrderRejected(self.text())),
         }
+    }
+
+    /// the text inside the client's error
+    fn text(&self) -> String {
+        format!("m{}", self.oid)
+    }
+
+    fn order_id(&self) -> OrderId {
+        OrderId::new(format!("o{}", self.oid))
+    }
+
+    fn time_exchange(&self) -> DateTime<Utc> {
+        time0() + chrono::Duration::milliseconds(self.tex)
     }
 
     async fn wait(delay: Option<u64>) {
@@ -205,13 +275,18 @@ impl ExecutionClient for ScriptedClient {
 
     fn cancel_order(
         &self,
-        _request: OrderRequestCancel<ExchangeId, &InstrumentNameExchange>,
+        request: OrderRequestCancel<ExchangeId, &InstrumentNameExchange>,
     ) -> impl Future<Output = UnindexedOrderResponseCancel> + Send {
+        self.seen.lock().unwrap().push(fwd_line(
+            "cancel",
+            &request.key,
+            format!("id:{}", request.state.id.as_ref().map(|id| id.0.to_string()).unwrap_or_else(|| "-".into())),
+        ));
         let script = self.scripts.lock().unwrap().pop_front().expect("script for cancel");
         let response: UnindexedOrderResponseCancel = OrderEvent {
             key: script.key(),
             state: match script.reply {
-                Reply::Ok => Ok(Cancelled { id: OrderId::new("o"), time_exchange: time0() }),
+                Reply::Ok => Ok(Cancelled { id: script.order_id(), time_exchange: script.time_exchange() }),
                 _ => Err(script.error()),
             },
         };
@@ -223,23 +298,34 @@ impl ExecutionClient for ScriptedClient {
 
     fn open_order(
         &self,
-        _request: OrderRequestOpen<ExchangeId, &InstrumentNameExchange>,
+        request: OrderRequestOpen<ExchangeId, &InstrumentNameExchange>,
     ) -> impl Future<Output = Order<ExchangeId, InstrumentNameExchange, Result<Open, UnindexedOrderError>>> + Send
     {
+        let st = &request.state;
+        self.seen.lock().unwrap().push(fwd_line(
+            "open",
+            &request.key,
+            fields_tok(st.side, st.price, st.quantity, st.kind, st.time_in_force),
+        ));
         let script = self.scripts.lock().unwrap().pop_front().expect("script for open");
-        let (side, price, quantity) = body_fields(script.ebody);
+        let (side, price, quantity, kind, time_in_force) = body_fields(script.ebody);
         let response = Order {
             key: script.key(),
             side,
             price,
             quantity,
-            kind: OrderKind::Limit,
-            time_in_force: TimeInForce::GoodUntilCancelled { post_only: false },
+            kind,
+            time_in_force,
             state: match script.reply {
                 Reply::Ok => Ok(Open {
-                    id: OrderId::new("o"),
-                    time_exchange: time0(),
-                    filled_quantity: if script.fills { quantity } else { Decimal::ZERO },
+                    id: script.order_id(),
+                    time_exchange: script.time_exchange(),
+                    filled_quantity: match script.fills {
+                        0 => Decimal::ZERO,
+                        1 => quantity,
+                        2 => quantity / Decimal::from(2),
+                        _ => quantity + Decimal::ONE,
+                    },
                 }),
                 _ => Err(script.error()),
             },
@@ -272,33 +358,43 @@ fn strip(prefix: char, s: &str) -> String {
     s.strip_prefix(prefix).map(|x| x.to_string()).unwrap_or_else(|| format!("?{s}"))
 }
 
+/// the error kind with its instrument / asset argument and what else it carries (text, exchange)
 fn order_error_str(e: &OrderError) -> String {
     match e {
         OrderError::Connectivity(ConnectivityError::Timeout) => "timeout".into(),
-        OrderError::Connectivity(ConnectivityError::ExchangeOffline(_)) => "offline".into(),
-        OrderError::Connectivity(ConnectivityError::Socket(_)) => "socket".into(),
-        OrderError::Rejected(ApiError::OrderRejected(_)) => "rej".into(),
-        OrderError::Rejected(ApiError::InstrumentInvalid(i, _)) => format!("inv{}", i.0.wrapping_sub(INDEX_OFFSET)),
-        OrderError::Rejected(ApiError::AssetInvalid(a, _)) => format!("ainv{}", a.0.wrapping_sub(ASSET_OFFSET)),
-        OrderError::Rejected(ApiError::BalanceInsufficient(a, _)) => format!("bal{}", a.0.wrapping_sub(ASSET_OFFSET)),
+        OrderError::Connectivity(ConnectivityError::ExchangeOffline(x)) => format!("offline:{}", exchange_no(*x)),
+        OrderError::Connectivity(ConnectivityError::Socket(m)) => format!("socket:{m}"),
+        OrderError::Rejected(ApiError::OrderRejected(m)) => format!("rej:{m}"),
+        OrderError::Rejected(ApiError::InstrumentInvalid(i, m)) => format!("inv{}:{m}", i.0.wrapping_sub(INDEX_OFFSET)),
+        OrderError::Rejected(ApiError::AssetInvalid(a, m)) => format!("ainv{}:{m}", a.0.wrapping_sub(ASSET_OFFSET)),
+        OrderError::Rejected(ApiError::BalanceInsufficient(a, m)) => {
+            format!("bal{}:{m}", a.0.wrapping_sub(ASSET_OFFSET))
+        }
         OrderError::Rejected(ApiError::RateLimit) => "rate".into(),
         OrderError::Rejected(ApiError::OrderAlreadyCancelled) => "acx".into(),
         OrderError::Rejected(ApiError::OrderAlreadyFullyFilled) => "aff".into(),
     }
 }
 
-/// (`at` line, `ev` line) of one event on the response channel
-fn canon(event: &AccountStreamEvent) -> (String, String) {
+fn ms(t: DateTime<Utc>) -> i64 {
+    (t - time0()).num_milliseconds()
+}
+
+/// (`at` line, `ev` line, `for:` line) of one event on the response channel
+fn canon(event: &AccountStreamEvent) -> (String, String, String) {
     let AccountStreamEvent::Item(AccountEvent { exchange, kind }) = event else {
-        return ("at reconnecting".into(), "ev reconnecting".into());
+        return ("at reconnecting".into(), "ev reconnecting".into(), "for:reconnecting".into());
     };
-    let (k, key, body, outcome) = match kind {
+    let (k, key, fields, outcome) = match kind {
         AccountEventKind::OrderSnapshot(Snapshot(order)) => (
             "open",
             &order.key,
-            fields_body(order.side, order.price, order.quantity, order.kind, order.time_in_force),
+            fields_tok(order.side, order.price, order.quantity, order.kind, order.time_in_force),
             match &order.state {
-                OrderState::Active(ActiveOrderState::Open(_)) => "ok".to_string(),
+                // the payload the event carries: order id, exchange time, filled quantity
+                OrderState::Active(ActiveOrderState::Open(o)) => {
+                    format!("ok:{}:{}:{}", o.id.0, ms(o.time_exchange), fmt_dec(o.filled_quantity))
+                }
                 OrderState::Active(_) => "active-other".into(),
                 OrderState::Inactive(InactiveOrderState::FullyFilled) => "full".into(),
                 OrderState::Inactive(InactiveOrderState::OpenFailed(e)) => order_error_str(e),
@@ -308,24 +404,24 @@ fn canon(event: &AccountStreamEvent) -> (String, String) {
         AccountEventKind::OrderCancelled(response) => (
             "cancel",
             &response.key,
-            "0".to_string(),
+            "-".to_string(),
             match &response.state {
-                Ok(_) => "ok".to_string(),
+                Ok(c) => format!("ok:{}:{}", c.id.0, ms(c.time_exchange)),
                 Err(e) => order_error_str(e),
             },
         ),
-        _ => return ("at other".into(), "ev other".into()),
+        _ => return ("at other".into(), "ev other".into(), "for:other".into()),
     };
-    let who = format!(
-        "{k} {} {} {} {} {}",
-        exchange.0,
-        key.exchange.0,
-        // engine instrument indices of this exchange do not start at 0 (see INDEX_OFFSET)
-        key.instrument.0.wrapping_sub(INDEX_OFFSET),
-        strip('s', key.strategy.0.as_str()),
-        strip('c', key.cid.0.as_str())
-    );
-    (format!("at {who}"), format!("ev {who} {body} {outcome}"))
+    // engine instrument indices of this exchange do not start at 0 (see INDEX_OFFSET)
+    let ins = key.instrument.0.wrapping_sub(INDEX_OFFSET);
+    let strat = strip('s', key.strategy.0.as_str());
+    let cid = strip('c', key.cid.0.as_str());
+    let who = format!("{k} {} {} {ins} {strat} {cid}", exchange.0, key.exchange.0);
+    (
+        format!("at {who}"),
+        format!("ev {who} {fields} {outcome}"),
+        format!("for:{k}:{}:{ins}:{strat}:{cid} {} {fields} {outcome}", key.exchange.0, exchange.0),
+    )
 }
 
 /// The manager under test serves an exchange that is NOT the first of a multi-exchange system: the
@@ -374,18 +470,24 @@ async fn observe(live: &mut Live, lines: &mut Vec<String>, let_manager_run: bool
     if let_manager_run {
         settle().await;
     }
+    // what the manager handed to the client since the last observation, in call order
+    lines.extend(live.client.seen.lock().unwrap().drain(..));
     let mut ats = Vec::new();
     let mut evs = Vec::new();
+    let mut fors = Vec::new();
     while let Ok(event) = live.resp_rx.rx.try_recv() {
-        let (a, e) = canon(&event);
+        let (a, e, f) = canon(&event);
         ats.push(a);
         evs.push(e);
+        fors.push(f);
     }
     ats.sort();
     evs.sort();
+    fors.sort();
     lines.push(format!("nev {}", evs.len()));
     lines.extend(ats);
     lines.extend(evs);
+    lines.extend(fors);
     if let Some(h) = live.handle.as_mut() {
         if h.is_finished() {
             live.status = match h.await {
@@ -414,7 +516,15 @@ fn parse_script(op: &[String]) -> Script {
             s if s.starts_with("bal") => Reply::BalanceInsufficient(s[3..].parse().expect("reply")),
             s => Reply::InvalidIns(s.strip_prefix("inv").expect("reply").parse().unwrap()),
         },
-        fills: op[8] == "1",
+        fills: match op[8].as_str() {
+            "0" => 0,
+            "1" => 1,
+            "2" => 2,
+            "3" => 3,
+            other => panic!("bad fills {other}"),
+        },
+        oid: op.get(14).map(|x| x.parse().unwrap()).unwrap_or(0),
+        tex: op.get(15).map(|x| x.parse().unwrap()).unwrap_or(0),
         eex: op[9].parse().unwrap(),
         eins: op[10].parse().unwrap(),
         estrat: op[11].parse().unwrap(),
@@ -432,19 +542,10 @@ fn request(op: &[String]) -> ExecutionRequest<ExchangeIndex, InstrumentIndex> {
         cid: ClientOrderId::new(format!("c{}", p(4))),
     };
     if op[0] == "open" {
-        let (side, price, quantity) = body_fields(p(5) as u64);
-        ExecutionRequest::Open(OrderEvent {
-            key,
-            state: RequestOpen {
-                side,
-                price,
-                quantity,
-                kind: OrderKind::Limit,
-                time_in_force: TimeInForce::GoodUntilCancelled { post_only: false },
-            },
-        })
+        let (side, price, quantity, kind, time_in_force) = body_fields(p(5) as u64);
+        ExecutionRequest::Open(OrderEvent { key, state: RequestOpen { side, price, quantity, kind, time_in_force } })
     } else {
-        ExecutionRequest::Cancel(OrderEvent { key, state: RequestCancel { id: None } })
+        ExecutionRequest::Cancel(OrderEvent { key, state: RequestCancel { id: cancel_id(p(5) as u64) } })
     }
 }
 
@@ -529,7 +630,16 @@ impl Gen {
         let ins = if bad_key && ex == 0 { self.n + self.rng.below(2) as usize } else { self.rng.below(self.n as u64) as usize };
         let strat = self.rng.below(2);
         let cid = self.rng.below(4);
-        let body = if open { self.rng.below(5) } else { 0 };
+        // opens: side / price / quantity x Limit|Market x time in force; cancels: `id` None | Some(o<k>)
+        let body = if open {
+            let kind = if self.rng.chance(30) { 1 } else { 0 };
+            let tif = if self.rng.chance(45) { self.rng.below(5) } else { 0 };
+            self.rng.below(5) + 6 * kind + 12 * tif
+        } else if self.rng.chance(40) {
+            1 + self.rng.below(3)
+        } else {
+            0
+        };
         let delay = self.delay();
         let mut reply = match self.rng.below(20) {
             0..=9 => "ok".to_string(),
@@ -544,8 +654,12 @@ impl Gen {
             16 | 17 => "rej".to_string(),
             _ => self.rng.pick(&["rate", "acx", "aff"]).to_string(),
         };
-        let fills = if open && self.rng.chance(25) { 1 } else { 0 };
-        let (mut eex, mut eins, mut estrat, mut ecid, mut ebody) = (ex, ins, strat, cid, body);
+        // filled quantity of an accepted open: nothing / all (fully filled) / half (partial fill) / over-fill
+        let fills = if open { *self.rng.pick(&[0u8, 0, 0, 0, 1, 1, 2, 2, 2, 3]) } else { 0 };
+        // payload of the answer: order id / error text, exchange time
+        let oid = self.rng.below(5);
+        let tex = self.rng.below(7);
+        let (mut eex, mut eins, mut estrat, mut ecid, mut ebody) = (ex, ins, strat, cid, if open { body } else { 0 });
         if !self.rng.chance(self.faithful_pct) {
             match self.rng.below(9) {
                 // unknown ASSET name in the error: the response cannot be indexed and is filtered
@@ -568,7 +682,7 @@ impl Gen {
             }
         }
         format!(
-            "{} {ex} {ins} {strat} {cid} {body} {delay} {reply} {fills} {eex} {eins} {estrat} {ecid} {ebody}",
+            "{} {ex} {ins} {strat} {cid} {body} {delay} {reply} {fills} {eex} {eins} {estrat} {ecid} {ebody} {oid} {tex}",
             if open { "open" } else { "cancel" }
         )
     }
